@@ -507,6 +507,23 @@ def r_get_group_ids(ctx: Ctx, rule: str):
                     over = False
                     break
             rep.ob(rule, "the ids of every named group's register are added to the result", over, node=u)
+            if loop_ok:
+                # ... of EVERY named group: no iteration skips the union step (e.g. for registers that are empty or small) or leaves early
+                from .cancel import loop_body_always_runs
+                heads_ = [h for h in ctx.nodes(f, lambda n: n.op == "iter" and n.ast is lp)]
+                if heads_:
+                    # (the step may exist in several copies of the flow graph - one per outcome of a helper spliced in before it: an
+                    #  iteration passes through ONE of them)
+                    copies_ = set(ctx.nodes(f, lambda n: n.ast is u.ast and n.op == u.op))
+                    from ..queries import reach as _reach
+                    from ..cfg import NORMAL_KINDS as _NK
+                    starts_ = [s_ for s_, lab_ in heads_[0].succ if lab_[0] == "T"]
+                    skipped_ = heads_[0] in _reach(starts_, lambda a, b, lab: lab[0] in _NK, avoid=copies_)
+                    full_, why_ = loop_body_always_runs(ctx, f, heads_[0], [])
+                    if skipped_:
+                        full_, why_ = False, f"an iteration can skip `{u.text(50)}`"
+                    rep.ob(rule, "no named group is skipped: every iteration performs the union step and the loop ends only when the names are exhausted",
+                           full_, node=u, detail=why_)
             recv = u.ast.func.value
             rets = ctx.distinct_sites(ctx.nodes(f, lambda n: n.op == "return" and n.ast.value is not None))
             rep.ob(rule, "the set returned is the union that was built", all(ast.unparse(r.ast.value) == ast.unparse(recv) for r in rets) and bool(rets), node=u)
